@@ -61,6 +61,9 @@ func (e *Engine) Run(fn *ssa.Function, setup Setup) []Result {
 		args := setup(p)
 		ret := e.call(p, fn, args, 0)
 		results = append(results, Result{Path: p, Ret: ret})
+		if strings.HasPrefix(p.Abort, "loop with a symbolic bound") {
+			return results // every further path would run into the same loop
+		}
 		// next decision vector: flip the last 'true' that was a fresh choice
 		d := p.decisions
 		i := len(d) - 1
@@ -84,6 +87,7 @@ type frame struct {
 	depth  int
 	defers []func()
 	visits map[*ssa.BasicBlock]int
+	forks  map[*ssa.If]int
 }
 
 func (e *Engine) call(p *Path, fn *ssa.Function, args []Value, depth int) []Value {
@@ -98,7 +102,7 @@ func (e *Engine) call(p *Path, fn *ssa.Function, args []Value, depth int) []Valu
 		p.abort("no body for %s", core.FullName(fn))
 		return nil
 	}
-	fr := &frame{fn: fn, env: map[ssa.Value]Value{}, depth: depth, visits: map[*ssa.BasicBlock]int{}}
+	fr := &frame{fn: fn, env: map[ssa.Value]Value{}, depth: depth, visits: map[*ssa.BasicBlock]int{}, forks: map[*ssa.If]int{}}
 	for k, v := range e.preseed {
 		fr.env[k] = v
 	}
@@ -137,6 +141,13 @@ func (e *Engine) call(p *Path, fn *ssa.Function, args []Value, depth int) []Valu
 				bv, ok := c.(*Bool)
 				if !ok {
 					bv = &Bool{}
+				}
+				if !bv.Known {
+					fr.forks[x]++
+					if fr.forks[x] > 12 {
+						p.abort("loop with a symbolic bound at %s in %s (bind the collection length in the variant)", e.P.InstrPos(x), core.QualName(fn))
+						return nil
+					}
 				}
 				if p.decide(bv, e.P.InstrPos(x)) {
 					next = b.Succs[0]
